@@ -38,6 +38,7 @@ def gen_case(rng, mod, ncores, length):
     nid = 0
     style = rng.below(4)            # 0: few priorities (ties), 1: 0..9, 2: wide, 3: two values
     d0only = (mod == 'ip' and rng.chance(1, 2)) or rng.chance(1, 8)
+    wide_d = rng.chance(1, 5)
     npend = 0
     for _ in range(length):
         if rng.below(100) < 58 or npend == 0 and rng.chance(9, 10):
@@ -56,7 +57,14 @@ def gen_case(rng, mod, ncores, length):
                 toks.append('%d:%d' % (nid, p)); nid += 1
             if rng.chance(1, 6):    # a ring that is already sorted (the merge shortcut of chain_sorted)
                 toks.sort(key=lambda t: -int(t.split(':')[1]))
-            d = 0 if d0only else rng.choice([0, 0, 0, 1, 1, 2, 3])
+            # distances: mostly small, but a fifth of the cases uses the whole range incl. values around and far beyond any
+            # internal bound on the number of distance lists (seeded change C09-1 clamped distances above 32)
+            if d0only:
+                d = 0
+            elif wide_d:
+                d = rng.choice([0, 1, 2, 31, 32, 33, 34, 40, 50, 63, 64, 65, 100, 199, rng.range(0, 70), rng.range(0, 300)])
+            else:
+                d = rng.choice([0, 0, 0, 1, 1, 2, 3])
             ops.append('sched %d %d %s' % (rng.below(ncores), d, ' '.join(toks)))
             npend += n
         else:
